@@ -135,7 +135,7 @@ def read_all(TFI, path, enc, prefix):
 
 
 def shards(tier):
-    return [('seq', i, NSHARDS) for i in range(NSHARDS)] + [('rules', i, NSHARDS) for i in range(NSHARDS)] + [('junk', 0, 1), ('cli', 0, 1), ('long', 0, 1), ('encjunk', 0, 1)]
+    return [('seq', i, NSHARDS) for i in range(NSHARDS)] + [('rules', i, NSHARDS) for i in range(NSHARDS)] + [('junk', 0, 1), ('cli', 0, 1), ('long', 0, 1), ('encjunk', 0, 1), ('autodetect', 0, 1)]
 
 
 def bounds(tier):
@@ -524,6 +524,87 @@ def run_encjunk(tier, acc):
     tree.rmtree(wd)
 
 
+# lists for the layer without -e: the trainer names the encoding itself (chardet) before the reader sees the file.  Long enough for the detector to be
+# sure of the plain file; every list has ASCII-only passwords among the others, and repeated lines
+_RU = ['\u043f\u0430\u0440\u043e\u043b\u044c', '\u043f\u0440\u0438\u0432\u0435\u0442', '\u043b\u044e\u0431\u043e\u0432\u044c', '\u0441\u043e\u043b\u043d\u0446\u0435', '\u043d\u0430\u0442\u0430\u0448\u0430',
+       '\u043c\u0430\u0440\u0438\u043d\u0430', '\u043c\u0430\u043a\u0441\u0438\u043c', '\u0441\u0435\u0440\u0433\u0435\u0439', '\u0430\u043d\u0434\u0440\u0435\u0439', '\u043c\u043e\u0441\u043a\u0432\u0430',
+       '\u0440\u043e\u0441\u0441\u0438\u044f', '\u0441\u043f\u0430\u0440\u0442\u0430\u043a', '\u0437\u0435\u043d\u0438\u0442', '\u043b\u044e\u0431\u043b\u044e', '\u043c\u0430\u043b\u044b\u0448\u043a\u0430',
+       '\u043a\u0440\u0430\u0441\u043e\u0442\u043a\u0430', '\u043f\u0440\u0438\u043d\u0446\u0435\u0441\u0441\u0430', '\u043a\u043e\u0442\u0435\u043d\u043e\u043a', '\u0437\u0430\u0439\u0447\u0438\u043a', '\u0430\u043d\u0433\u0435\u043b']
+_DE = ['stra\u00dfe', 'm\u00fcller', 'sch\u00f6n', 'gr\u00fc\u00dfe', 'k\u00e4se', 'caf\u00e9', 'ni\u00f1o', 'fran\u00e7ais', '\u00e9t\u00e9', 'cr\u00e8me', 'b\u00e4r', 'l\u00f6we', 'j\u00e4ger', 'fu\u00dfball', 'm\u00e4dchen',
+       'k\u00f6nig', 't\u00fcr', 'gl\u00fcck', 's\u00fc\u00df', 'h\u00e4nde']
+
+
+def _auto_seq(words):
+    seq = []
+    for i, w in enumerate(words):
+        seq += [w] * (1 + i % 3) + ['pass%d' % i] + [w + str(i)]
+    return seq
+
+
+AUTO_LISTS = [('cp1251', _RU), ('koi8-r', _RU), ('utf-8', _RU), ('utf-8', _DE), ('utf-16', _RU), ('ascii', ['monkey', 'dragon', 'letmein', 'shadow', 'master'])]
+
+
+def auto_variants(seq, enc):
+    """(name, bytes, prefixcount): hex for no line / the non-ASCII lines (what hashcat writes) / every line x LF, CRLF x repeated, counted (uniq -c layout and bare)"""
+    piece = PIECE.get(enc, enc)
+    for hexmode in ('none', 'non-ascii', 'all'):
+        if hexmode != 'none' and enc in PIECE:
+            continue
+        for nl_name, nl in (('LF', '\n'), ('CRLF', '\r\n')):
+            for prefix in ('', 'bare', 'uniq-c'):
+                lines = []
+                for pw, cnt in (runs(seq) if prefix else [(w, 1) for w in seq]):
+                    body = hexform(pw, enc) if hexmode == 'all' or (hexmode == 'non-ascii' and not pw.isascii()) else pw
+                    if prefix:
+                        body = ('%d %s' if prefix == 'bare' else '%7d %s') % (cnt, body)
+                    lines.append(body)
+                yield '%s %s hex=%s' % (nl_name, prefix or 'repeated', hexmode), BOM.get(enc, b'') + ''.join(l + nl for l in lines).encode(piece), bool(prefix)
+
+
+def run_autodetect(tier, acc):
+    """trainer.py WITHOUT -e: the encoding is named by the trainer's own detection step, then the three passes read the file.  Every spelling of one
+    list must train the ruleset of its plain LF spelling (config.ini included: the detected encoding is part of it)."""
+    from .. import session as S
+    import shutil
+    try:
+        import chardet      # noqa: F401  (the trainer asks on stdin whether to go on without it: nothing to explore then)
+    except ImportError:
+        acc.sample({'layer': 'autodetect', 'skipped': 'chardet is not installed in this interpreter'}, cap=1)
+        return
+    td = tree.scratch_tree()
+    for enc, words in AUTO_LISTS:
+        seq = _auto_seq(words)
+        ref = None
+        for name, data, prefix in auto_variants(seq, enc):
+            tf = os.path.join(td, 'train.txt')
+            with open(tf, 'wb') as f:
+                f.write(data)
+            argv = ['-t', tf, '-r', 'auto', '--coverage', '0.5', '--ngram', '3'] + (['--prefixcount'] if prefix else [])
+            shutil.rmtree(os.path.join(td, 'Rules', 'auto'), ignore_errors=True)
+            r = S.run_cli(td, 'trainer', argv)
+            acc.evals += 1
+            case = {'layer': 'autodetect', 'list_encoding': enc, 'words': words[:3], 'variant': name, 'file_hex': data.hex() if len(data) < 4000 else data[:4000].hex()}
+            base_dir = os.path.join(td, 'Rules', 'auto')
+            if r.exc or not os.path.exists(os.path.join(base_dir, 'Grammar', 'grammar.txt')):
+                acc.fail(case, 'autodetect: trainer.py without -e on the %s list, spelling [%s], did not produce a ruleset (%s)'
+                         % (enc, name, (r.exc or '').strip().splitlines()[-1:] or r.stdout[-3:]), 'auto-train:' + enc)
+                continue
+            t = P.tree_bytes(base_dir)
+            cfg = t.get('config.ini', b'')
+            det = [l for l in cfg.split(b'\n') if l.startswith(b'encoding')]
+            t['config.ini'] = b'\n'.join(l for l in cfg.split(b'\n') if not l.startswith(b'number_of_encoding_errors'))
+            if ref is None:
+                ref = (name, t, det)
+                continue
+            acc.nontrivial += 1
+            if t != ref[1]:
+                diff = sorted(k for k in set(t) | set(ref[1]) if t.get(k) != ref[1].get(k))
+                acc.fail(case, 'autodetect: trainer.py without -e: spelling [%s] of the %s list trains a ruleset that differs from spelling [%s] in %d files, e.g. %r (%s there, %s here)'
+                         % (name, enc, ref[0], len(diff), diff[:4], ref[2][:1], det[:1]), 'auto-ruleset:%s:%s' % (enc, name.split(' ', 1)[1]))
+    acc.sample({'layer': 'autodetect', 'argv': ['-t', 'train.txt', '-r', 'auto', '--coverage', '0.5', '--ngram', '3'], 'lists': [e for e, _ in AUTO_LISTS]}, cap=1)
+    tree.rmtree(td)
+
+
 def train_bytes_opts(wd, data, enc, prefix, rule, **opts):
     ok, base, out, pi = P.train(wd, None, rule=rule, raw_bytes=data, encoding=enc, prefixcount=prefix, **opts)
     if ok is not True:
@@ -544,6 +625,8 @@ def run_shard(shard, tier, acc):
         run_long(tier, acc)
     elif shard[0] == 'encjunk':
         run_encjunk(tier, acc)
+    elif shard[0] == 'autodetect':
+        run_autodetect(tier, acc)
     else:
         run_junk(tier, acc)
 
@@ -554,6 +637,13 @@ def replay(case):
         acc = Acc()
         run_encjunk('quick', acc)
         fs = [f for f in acc.failures if f['case'] == case]
+        return fs[0]['msg'] if fs else None
+    if case.get('layer') == 'autodetect':
+        from ..runner import Acc
+        acc = Acc()
+        run_autodetect('quick', acc)
+        fs = [f for f in acc.failures if f['case'].get('variant') == case.get('variant') and f['case'].get('list_encoding') == case.get('list_encoding')
+              and f['case'].get('words') == case.get('words')]
         return fs[0]['msg'] if fs else None
     if case.get('layer') == 'long':
         from ..runner import Acc
